@@ -88,4 +88,17 @@ SPECS = {
                          "not modelled (searched only): simplecss selector matching and rule order, svgtypes value grammars (colours, numbers, font shorthand), converter defaults"],
         "assumptions": COMMON_ASSUME,
     },
+    "C03": {
+        "level": "proof",
+        "corr": True,
+        "search": True,
+        "translator_anchors": ["enter_def guard before any recursive conversion in clippath::convert, mask::convert, filter::convert_url, paint_server::convert_pattern",
+                               "parent_markers guard/push in marker.rs", "enter_def cut/push in converter.rs", "HrefIter visited check/push", "use stack check/push in parse_svg_use_element"],
+        "claim": "Lean 4 theorems for every finite reference graph: an xlink:href chain yields at most n pairwise distinct elements (HrefIter with the visited list, fix ae7a68b) while the old iterator is proved to run forever on a->b->c->b; the converter's recursion skeleton with the in-progress stack (State::parent_defs, fix 1310f19; parent_markers) terminates within an explicit fuel bound whatever mix of link kinds forms the cycles and wherever they are entered (lexicographic measure: guarded elements not yet on the stack, rank in the acyclic unguarded part), while the unguarded recursion is proved to exhaust every fuel on a 3-cycle. The structural hypothesis (every reference-following function calls the guard first) is re-extracted from the sources by the translator on every run; HrefIter is tied exhaustively on all functional graphs with <= 4 elements, the guard decision by enter_def traces. The implementation-side search renders every cyclic graph up to length 3 (quick) / 4 (thorough) over the 13 link placements plus random graphs up to 12 elements in an isolated worker.",
+        "design_ref": "§6 C03",
+        "rule": "correspondence: hrefchain on all (n+1)^n functional graphs, n<=4, from every start (exhaustive); enterdef: every State::enter_def call recorded while converting sampled cyclic documents. search: exhaustive enumeration of cycles (type sequence x link kind sequence) up to length 2 fully, length 3 sampled by seed (thorough: all up to 4), random graphs of 2..12 elements; oracle: no crash/hang/panic/rejection, witness shape present with the same geometry and paint and painted.",
+        "trusted_base": ["modelled: HrefIter::next; State::enter_def and the set of functions that call it; the shape of the converter's recursion (children + references)",
+                         "not modelled (searched only): which attribute combinations actually produce a reference edge (validity rules of each converter), use expansion (modelled for C01/C10), fix_recursive_* pre-passes (now redundant)"],
+        "assumptions": COMMON_ASSUME + ["the unguarded part of the reference graph (children, shapes, groups, feImage targets) is acyclic: it is the finite svgtree after use expansion, and every reference edge ends in a guarded element or is owned by one (feImage by its filter)"],
+    },
 }
